@@ -47,11 +47,30 @@ Body == <<<<[c |-> "when", w |-> <<<<Gac(<<K(km)>>, "eq", TRUE, <<Val(S(sskip))>
 Block(all, ne) == [c |-> "block", q |-> <<K(kitems), [p |-> "idx"], K(ksub)>>, all |-> all, ne |-> ne, lets |-> <<>>, b |-> Body]
 Prog(all, ne) == [lets |-> <<>>, prules |-> <<>>, rules |-> <<[n |-> "r", w |-> <<>>, lets |-> <<>>, b |-> <<<<Block(all, ne)>>>>]>>]
 
-VARIABLES es, all, ne
+\* ---- the type-block form: resources of type T::A::B (P / F / S as above) and of another type (N)
+TypeName == "T::A::B"
+TypeCp == <<84, 58, 58, 65, 58, 58, 66>>
+OtherCp == <<79, 58, 58, 88>>
+kRes == <<82, 101, 115, 111, 117, 114, 99, 101, 115>>
+kType == <<84, 121, 112, 101>>
+TRes(s) == CASE s = "P" -> M(<<kType, km, kv>>, <<S(TypeCp), S(sx), I(1)>>)
+            [] s = "F" -> M(<<kType, km, kv>>, <<S(TypeCp), S(sx), I(2)>>)
+            [] s = "S" -> M(<<kType, km>>, <<S(TypeCp), S(sskip)>>)
+            [] s = "U" -> M(<<kType, kn>>, <<S(OtherCp), I(0)>>)      \* U stands for: another type
+ResName(i) == <<114, 48 + i>>
+TDoc(xs) == M(<<kRes>>, <<M([i \in 1 .. Len(xs) |-> ResName(i)], [i \in 1 .. Len(xs) |-> TRes(xs[i])])>>)
+TProg == [lets |-> <<>>, prules |-> <<>>,
+          rules |-> <<[n |-> "r", w |-> <<>>, lets |-> <<>>,
+                       b |-> <<<<[c |-> "type", tn |-> TypeName, tnc |-> TypeCp, w |-> <<>>, lets |-> <<>>, b |-> Body]>>>>]>>]
+
+VARIABLES es, all, ne, form
 Init == /\ es \in UNION {[1 .. n -> Kinds] : n \in 0 .. MaxN}
         /\ all \in BOOLEAN /\ ne \in BOOLEAN
-Next == UNCHANGED <<es, all, ne>>
-Spec == Init /\ [][Next]_<<es, all, ne>>
+        /\ form \in {"block", "type"}
+        \* a type block has no quantifier; an empty Resources map is an error of its own (C14 finding)
+        /\ form = "type" => (all /\ ~ne /\ Len(es) > 0)
+Next == UNCHANGED <<es, all, ne, form>>
+Spec == Init /\ [][Next]_<<es, all, ne, form>>
 
 Has(s) == \E i \in 1 .. Len(es) : es[i] = s
 Want ==
@@ -59,13 +78,18 @@ Want ==
   ELSE IF all THEN (IF Has("F") \/ Has("U") THEN "FAIL" ELSE IF Has("P") THEN "PASS" ELSE "SKIP")
   ELSE (IF Has("P") THEN "PASS" ELSE IF Has("F") \/ Has("U") THEN "FAIL" ELSE "SKIP")
 
-D == Denote(Prog(all, ne), Doc(es), {})
+\* type block: the resources of the type combine like the values of an all-block; none of the type: SKIP
+TWant == IF ~(Has("P") \/ Has("F") \/ Has("S")) THEN "SKIP"
+         ELSE IF Has("F") THEN "FAIL" ELSE IF Has("P") THEN "PASS" ELSE "SKIP"
+TheProg == IF form = "type" THEN TProg ELSE Prog(all, ne)
+TheDoc == IF form = "type" THEN TDoc(es) ELSE Doc(es)
+D == Denote(TheProg, TheDoc, {})
 \* `!empty` on the block query only adds the emptiness test, which is implied whenever a value
 \* resolves; it does not change how the values combine
-BlockLaw == D.kind = "ok" /\ (ne = FALSE => D.rules[1][2] = Want)
+BlockLaw == D.kind = "ok" /\ (ne = FALSE => D.rules[1][2] = (IF form = "type" THEN TWant ELSE Want))
 NotEmptySame == Denote(Prog(all, TRUE), Doc(es), {}).kind = "ok"
 
-Emit == PrintT(<<"REPLAY", ToJson([prog |-> Prog(all, ne), doc |-> Doc(es),
+Emit == PrintT(<<"REPLAY", ToJson([prog |-> TheProg, doc |-> TheDoc,
                                    expect |-> IF D.kind = "ok" THEN [kind |-> "ok", file |-> D.file, rules |-> D.rules]
                                               ELSE [kind |-> "err"]])>>)
 =============================================================================
